@@ -54,9 +54,55 @@ func init() {
 	})
 }
 
+// sharedCtxDepths: ONE context evaluates programs of different operand-stack depths one after the other (shallow first,
+// then 9..20 deep): every accepted program returns the reference result, whatever the context evaluated before.
+func sharedCtxDepths(c *RunCtx) {
+	conf := eval.NewConfig(eval.RegVarAndOp(map[string]interface{}{"a": int64(1)}), eval.Optimizations(false))
+	ctx := eval.NewCtxFromVars(conf, map[string]interface{}{"a": int64(1)})
+	chain := func(d int) string {
+		s := "a"
+		for i := 0; i < d; i++ {
+			s = "(+ a " + s + ")"
+		}
+		return s
+	}
+	for _, try := range []bool{false, true} {
+		for _, d := range []int{2, 7, 8, 9, 12, 15, 16, 17, 20, 3, 16, 9} {
+			src := chain(d)
+			e, err, pan := compileSafe(conf, src)
+			if err != nil || pan != nil || e == nil {
+				continue
+			}
+			var got string
+			guarded(map[string]interface{}{"call": "Eval with a context used before", "source": src}, func() {
+				defer func() {
+					if p := recover(); p != nil {
+						got = fmt.Sprintf("panic: %v", p)
+					}
+				}()
+				var v eval.Value
+				var er error
+				if try {
+					v, er = e.TryEval(ctx)
+				} else {
+					v, er = e.Eval(ctx)
+				}
+				got = fmt.Sprintf("%v / %v", v, er)
+			})
+			c.ExploreEvals++
+			if want := fmt.Sprintf("%d / <nil>", d+1); got != want {
+				c.Direct = append(c.Direct, DirectViolation{What: "a program accepted by Compile does not return the reference result when its context has evaluated other programs before", Sig: "c09-shared-ctx",
+					Sample: map[string]interface{}{"depth": d, "tryeval": try, "got": got, "want": want}})
+				return
+			}
+		}
+	}
+}
+
 func genC09(c *RunCtx) []*Batch {
 	r := c.R
 	b := evalBatch("C09", "limits")
+	sharedCtxDepths(c)
 	ones := func(i int) *GT { return gconst(true) }
 	vars := func(i int) *GT { return gvar(boolVars[i%4]) }
 	// operand counts, direct
